@@ -27,6 +27,10 @@ type Violation struct {
 	ShrinkRun int      `json:"shrink_evals"`
 	TapeLen0  int      `json:"tape_len_before_shrink"`
 	Signature string   `json:"signature,omitempty"` // stable text known findings are matched against
+	// KeepPrefix is set by a property together with Tape when the tape is in a
+	// literal form whose first values select that form: the shrinker leaves
+	// them alone.
+	KeepPrefix int `json:"-"`
 }
 
 // Replay is the on-disk replay file.
